@@ -105,7 +105,8 @@ Cont(t, m, x) == LET R == RootOf(m, x) IN
 RootSets == <<  << <<90, 128>>, <<0, 0>>, <<1, 0>>, <<0, 32>> >>,     \* upper end of the last element, lower end, element boundary, interior
                 << <<90, 96>>, <<0, 64>>, <<1, 32>> >>,               \* interior points, not in element order
                 << <<0, 64>>, <<91, 64>>, <<1, 64>> >>,               \* the second one is outside
-                << <<-1, 64>>, <<1, 0>>, <<90, 128>> >>  >>
+                << <<1, 96>>, <<0, 128>>, <<90, 0>>, <<0, 96>> >>,    \* element boundaries from the other side
+                << <<-1, 64>>, <<1, 0>>, <<90, 128>> >>  >>           \* the first one is outside
 OtherAxis(i) == (i % Len(RootSets)) + 1
 ElemOf(t, d, c) == IF c >= 90 THEN t.axes[d].n - 1 + (c - 90) ELSE c
 RootPoints(t, i) == LET sx == RootSets[i]
@@ -145,12 +146,13 @@ Init == /\ topo \in Topos
         /\ hist = <<>>
         /\ last = [n |-> 0, m |-> Map(<<>>, <<>>, 0), ts |-> <<>>, res |-> Raised]
 
-LocateCall(g, hasargs, m, ts) ==
-    LET usememo == memo.set /\ memo.geom = g
+LocateCall(g, hasargs, m, tsi, own) ==
+    LET ts == TargetsOf(topo, tsi, IF own THEN m ELSE ArgVals(Nd(topo))[1])
+        usememo == memo.set /\ memo.geom = g
         fit == IF usememo THEN memo.fit ELSE Asaffine(topo, m)
         res == IF fit.err THEN Generic(topo, m, ts) ELSE Structured(topo, fit, ts)
         store == ~fit.err /\ (~hasargs \/ MemoAlways)
-        rec == [g |-> g, hasargs |-> hasargs, m |-> m, ts |-> ts, raised |-> res.raised, pts |-> res.pts,
+        rec == [g |-> g, hasargs |-> hasargs, m |-> m, ts |-> ts, tsi |-> tsi, own |-> own, raised |-> res.raised, pts |-> res.pts,
                 path |-> (IF usememo THEN "memo" ELSE "fit") \o (IF fit.err THEN "+generic" ELSE "+structured"),
                 mustraise |-> \E k \in 1..Len(ts) : Cont(topo, m, ts[k]) = {},
                 cont |-> [k \in 1..Len(ts) |-> LET C == Cont(topo, m, ts[k]) IN
@@ -161,11 +163,13 @@ LocateCall(g, hasargs, m, ts) ==
        /\ last' = [n |-> Len(hist) + 1, m |-> m, ts |-> ts, res |-> res]
        /\ UNCHANGED topo
 
-TS(m) == {TargetsOf(topo, i, mt) : i \in 1..NTargetSets, mt \in {m, ArgVals(Nd(topo))[1]}}
 \* one disjunct per spelling of the call, so that the coverage tells them apart
-CallFree == \E g \in {"F1", "F2"} : \E ts \in TS(FixedMap(g, Nd(topo))) : LocateCall(g, FALSE, FixedMap(g, Nd(topo)), ts)
-CallFreeExtraArgs == \E ts \in TS(FixedMap("F1", Nd(topo))) : LocateCall("F1", TRUE, FixedMap("F1", Nd(topo)), ts)
-CallWithArgs == \E i \in 1..Len(ArgVals(Nd(topo))) : \E ts \in TS(ArgVals(Nd(topo))[i]) : LocateCall("P", TRUE, ArgVals(Nd(topo))[i], ts)
+CallFree == /\ Len(hist) < MaxCalls
+            /\ \E g \in {"F1", "F2"}, i \in 1..NTargetSets, own \in BOOLEAN : LocateCall(g, FALSE, FixedMap(g, Nd(topo)), i, own)
+CallFreeExtraArgs == /\ Len(hist) < MaxCalls
+                     /\ \E i \in 1..NTargetSets, own \in BOOLEAN : LocateCall("F1", TRUE, FixedMap("F1", Nd(topo)), i, own)
+CallWithArgs == /\ Len(hist) < MaxCalls
+                /\ \E a \in 1..Len(ArgVals(Nd(topo))), i \in 1..NTargetSets, own \in BOOLEAN : LocateCall("P", TRUE, ArgVals(Nd(topo))[a], i, own)
 Next == CallFree \/ CallFreeExtraArgs \/ CallWithArgs
 Spec == Init /\ [][Next]_vars
 
